@@ -6,6 +6,7 @@ import Driver.Pat
 import Driver.Rank
 import Driver.Filter
 import Driver.Reader
+import Driver.Quote
 /-
 fzfmodel: reads protocol lines `<area> <op> <args>... => <impl answer>` on stdin and
 prints, per line, `EQ|NE PASS|FAIL|NA | model=<answer> | <reason>`.
@@ -21,6 +22,7 @@ def dispatch (ctx : Driver.Algo.Ctx) (area op : String) (args impl : List String
   | "rank" => Driver.Rank.run ctx op args impl
   | "filter" => Driver.Filter.run ctx op args impl
   | "reader" => Driver.Reader.run op args impl
+  | "quote" => Driver.Quote.run op args impl
   | _ => { model := "bad-area" }
 
 def processLine (ctx : Driver.Algo.Ctx) (line : String) : String :=
